@@ -264,4 +264,112 @@ def writeFieldPacked (t : Ty) (i : Nat) (val : List Nat) (total : Nat) : Option 
     else some (writeAt (List.replicate (sizeP t) 0) off val ++ List.replicate (total - sizeP t) 0)
   | none => none
 
+
+/-! ### histories: failed writes, then further writes
+
+`types.BinaryWrite` (types/file.go) is `binary.Write(writer, order, data)`: it keeps nothing between calls, so
+the bytes a call hands to its writer are the image of ITS argument only — whatever happened before (a write
+that failed with ENOSPC/EFBIG/EBADF, an encoding error, a success).  A failed write leaves the file as it was.
+The history model therefore has no state besides the files. -/
+
+inductive HStep where
+  /-- a record or field write whose `write(2)` (or whose encoding) fails: nothing is written, nothing is kept -/
+  | fail
+  /-- cmbbs.PasswdUpdatePasswd / PasswdUpdateEmail / cache.passwdUpdateMoney -/
+  | upd (fn : String) (uid : Int) (val : List Nat)
+  /-- cmbbs.PasswdUpdate -/
+  | whole (uid : Int) (r : List Nat)
+  /-- cmsys.AppendRecord(".post", &postLog, POSTLOG_SZ): seek to `(size / POSTLOG_SZ) * POSTLOG_SZ`, write the image -/
+  | app (r : List Nat)
+
+structure HFiles where
+  passwd : List Nat
+  post : List Nat
+
+def appendPost (c : Config) (post r : List Nat) : Option (List Nat) := do
+  let t ← c.ty "PostLog"
+  let sz ← c.const "POSTLOG_SZ"
+  if r.length = sizeP t ∧ 0 < sz then some (writeAt post (post.length / sz * sz) r) else none
+
+/-- one step: (succeeded?, files afterwards). -/
+def hstep (c : Config) (s : HFiles) : HStep → Bool × HFiles
+  | .fail => (false, s)
+  | .upd fn uid v =>
+    match passwdWrite c fn s.passwd uid v with
+    | some f' => (true, { s with passwd := f' })
+    | none => (false, s)
+  | .whole uid r =>
+    match passwdUpdate c s.passwd uid r with
+    | some f' => (true, { s with passwd := f' })
+    | none => (false, s)
+  | .app r =>
+    match appendPost c s.post r with
+    | some p' => (true, { s with post := p' })
+    | none => (false, s)
+
+def runHist (c : Config) : HFiles → List HStep → List Bool × HFiles
+  | s, [] => ([], s)
+  | s, st :: r =>
+    let (ok, s1) := hstep c s st
+    let (oks, s2) := runHist c s1 r
+    (ok :: oks, s2)
+
+/-! ### fixed-size entries (types.BinWrite) and the `.fav` image -/
+
+def le16 (v : Nat) : List Nat := [v % 256, v / 256 % 256]
+
+/-- `types.BinWrite(file, &record, total)`: the field images back to back, then zeros up to `total`.
+A function of the record and the size only. -/
+def recordImage (t : Ty) (vals : List (List Nat)) (total : Nat) : Option (List Nat) :=
+  if vals.map List.length = t.packed.map (fun x => x.2.2) ∧ sizeP t ≤ total
+  then some (vals.flatten ++ List.replicate (total - sizeP t) 0) else none
+
+def favEntries (t : Ty) (total lv attr : Nat) : Nat → Nat → Option (List Nat)
+  | 0, _ => some []
+  | n + 1, bid => do
+      let e ← recordImage t [le32 bid, le32 lv, [attr]] total
+      let rest ← favEntries t total lv attr n (bid + 1)
+      -- FAVT_BOARD = 1, FAVH_FAV = 1 (ptt/fav/favt.go, types.go): type byte, attribute byte, then the entry
+      pure ([1, 1] ++ e ++ rest)
+
+/-- the `.fav` written by FavRaw.Save for `n` board entries bid 1..n with the given last-visit and attribute:
+int16 version, int16 nBoards, int8 nLines, int8 nFolders, then per entry type, attr and the padded entry. -/
+def favFile (c : Config) (ver n lv attr : Nat) : Option (List Nat) := do
+  let t ← c.ty "FavBoard"
+  let total ← c.const "SIZE_OF_FAV_BOARD"
+  let es ← favEntries t total lv attr n 1
+  pure (le16 ver ++ le16 n ++ [0, 0] ++ es)
+
+/-! ### concurrent writers
+
+Each `types.BinWrite` call encodes into storage of its own (`enc i`) and then writes it (`wr i`); calls of
+different goroutines interleave arbitrarily.  `img i` is the image of writer `i`'s record. -/
+
+inductive WStep where
+  | enc (i : Nat)
+  | wr (i : Nat)
+
+structure WState where
+  scratch : Nat → List Nat
+  files : Nat → List Nat
+
+def wstep (img : Nat → List Nat) (s : WState) : WStep → WState
+  | .enc i => { s with scratch := fun j => if j = i then img i else s.scratch j }
+  | .wr i => { s with files := fun j => if j = i then s.files j ++ s.scratch i else s.files j }
+
+def wrun (img : Nat → List Nat) (s : WState) (sched : List WStep) : WState := sched.foldl (wstep img) s
+
+def winit : WState := ⟨fun _ => [], fun _ => []⟩
+
+/-- the broken rule (one scratch area shared by all writers), kept for the witness theorem. -/
+structure SState where
+  scratch : List Nat
+  files : Nat → List Nat
+
+def sstep (img : Nat → List Nat) (s : SState) : WStep → SState
+  | .enc i => { s with scratch := img i }
+  | .wr i => { s with files := fun j => if j = i then s.files j ++ s.scratch else s.files j }
+
+def srun (img : Nat → List Nat) (s : SState) (sched : List WStep) : SState := sched.foldl (sstep img) s
+
 end PttVerif.C01
